@@ -391,6 +391,10 @@ func laneE2E(c *ev.Ctx) {
 		return ""
 	}
 	ifRangeKinds := []string{"current-etag", "stale-etag", "weak-etag", "unquoted-etag", "garbage", "date-past", "date-future"}
+	// other conditional headers next to a Range: the answer may also be 304 (no body) or 412 - still never a 200
+	// that carries a slice, nor a 206 with other bytes than the range names. Written "Header-Name|kind".
+	condKinds := []string{"If-Match|current-etag", "If-Match|stale-etag", "If-None-Match|current-etag", "If-None-Match|stale-etag",
+		"If-Modified-Since|date-past", "If-Modified-Since|date-future", "If-Unmodified-Since|date-past", "If-Unmodified-Since|date-future"}
 	comp := ""
 	one := func(id string, size int64, h string, head bool) {
 		obj := objs[size]
@@ -398,8 +402,12 @@ func laneE2E(c *ev.Ctx) {
 		var resp *s3c.Resp
 		method := "GET"
 		hdr := []string{"Range", h}
+		compHdr, compKind := "If-Range", comp
+		if hn, k, ok := strings.Cut(comp, "|"); ok {
+			compHdr, compKind = hn, k
+		}
 		if comp != "" {
-			hdr = append(hdr, "If-Range", ifRange(comp, obj))
+			hdr = append(hdr, compHdr, ifRange(compKind, obj))
 		}
 		if head {
 			method = "HEAD"
@@ -435,14 +443,18 @@ func laneE2E(c *ev.Ctx) {
 		}
 		if comp != "" {
 			e.strict = append(e.strict, outcome{kind: "ignore"})
-			e.class += "+if-range:" + comp
+			e.class += "+" + strings.ToLower(compHdr) + ":" + compKind
+			if compHdr != "If-Range" && (resp.Status == 412 || resp.Status == 304 && len(resp.Body) == 0) {
+				c.Distinct("e2e|" + method + "|" + sizeClass(size) + "|" + e.class + "|precondition")
+				return
+			}
 		}
 		c.Distinct("e2e|" + method + "|" + sizeClass(size) + "|" + e.class)
 		cr := resp.Header.Get("Content-Range")
 		cl := resp.Header.Get("Content-Length")
 		obs := map[string]any{"method": method, "size": size, "range": h, "status": resp.Status, "content_range": cr, "content_length": cl, "body_len": len(resp.Body), "class": e.class}
 		if comp != "" {
-			obs["if_range"] = ifRange(comp, obj)
+			obs["conditional_header"] = compHdr + ": " + ifRange(compKind, obj)
 		}
 		bad := func(sig, why string) {
 			obs["why"] = why
@@ -516,6 +528,16 @@ func laneE2E(c *ev.Ctx) {
 			}
 		}
 	}
+	for i, k := range condKinds {
+		for j, h := range []string{"bytes=10-29", "bytes=-7"} {
+			id := fmt.Sprintf("e2e/cond/%d/%d", i, j)
+			if c.Want(id) {
+				comp = k
+				one(id, 100, h, false)
+				comp = ""
+			}
+		}
+	}
 	for i := 0; i < n; i++ {
 		size := sizes[r.Intn(len(sizes))]
 		if r.Intn(10) == 0 {
@@ -524,8 +546,11 @@ func laneE2E(c *ev.Ctx) {
 		h := genHeader(r, size)
 		id := fmt.Sprintf("e2e/gen/%d", i)
 		ck := ""
-		if r.Intn(6) == 0 {
+		switch r.Intn(12) {
+		case 0, 1:
 			ck = ifRangeKinds[r.Intn(len(ifRangeKinds))]
+		case 2:
+			ck = condKinds[r.Intn(len(condKinds))]
 		}
 		if !c.Want(id) {
 			continue
